@@ -193,3 +193,81 @@ func (t *vtable) rankOf(kind int, nullable bool, v any) (bool, int) {
 }
 
 func kindIsOrdered(kind int) bool { return kind != jsonapi.AttrTypeBool }
+
+// randomBase draws a random base value of a kind (full range).
+func randomBase(r *rand.Rand, kind int) any {
+	switch kind {
+	case jsonapi.AttrTypeString:
+		return randString(r)
+	case jsonapi.AttrTypeBytes:
+		return randBytes(r, r.Intn(6))
+	case jsonapi.AttrTypeTime:
+		return randTime(r)
+	case jsonapi.AttrTypeBool:
+		return r.Intn(2) == 0
+	}
+	u := r.Uint64()
+	if r.Intn(3) == 0 {
+		u >>= uint(r.Intn(64)) // small magnitudes too
+	}
+	rv := reflect.New(goTypes[kind]).Elem()
+	if rv.Kind() >= reflect.Int && rv.Kind() <= reflect.Int64 {
+		rv.SetInt(int64(u) >> (64 - rv.Type().Bits()))
+	} else {
+		rv.SetUint(u >> (64 - rv.Type().Bits()))
+	}
+	return rv.Interface()
+}
+
+// mutateNear returns a value close to v (equal, adjacent, prefix, extension).
+func mutateNear(r *rand.Rand, kind int, v any) any {
+	switch x := v.(type) {
+	case string:
+		switch r.Intn(3) {
+		case 0:
+			return x
+		case 1:
+			return x + "a"
+		}
+		if len(x) > 0 {
+			return x[:len(x)-1]
+		}
+		return x
+	case []byte:
+		switch r.Intn(4) {
+		case 0:
+			return append([]byte{}, x...)
+		case 1:
+			return append(append([]byte{}, x...), 0)
+		case 2:
+			if len(x) > 1 { // swap two bytes: same multiset, other order
+				y := append([]byte{}, x...)
+				y[0], y[len(y)-1] = y[len(y)-1], y[0]
+				return y
+			}
+		}
+		if len(x) > 0 {
+			return append([]byte{}, x[:len(x)-1]...)
+		}
+		return x
+	case time.Time:
+		switch r.Intn(3) {
+		case 0:
+			return x.In(time.FixedZone("", 3600*(r.Intn(25)-12))) // same instant, other zone
+		case 1:
+			return x.Add(time.Nanosecond)
+		}
+		return x.Add(-time.Nanosecond)
+	}
+	rv := reflect.New(goTypes[kind]).Elem()
+	rv.Set(reflect.ValueOf(v))
+	if r.Intn(3) == 0 {
+		return v
+	}
+	if rv.Kind() >= reflect.Int && rv.Kind() <= reflect.Int64 {
+		rv.SetInt(rv.Int() + 1) // wraps at the maximum: still a value of the kind
+	} else {
+		rv.SetUint(rv.Uint() + 1)
+	}
+	return rv.Interface()
+}
